@@ -189,6 +189,12 @@ uint32_t File::defaultLogContainerSize() const {
 
 void File::setDefaultLogContainerSize(uint32_t defaultLogContainerSize) {
     m_uncompressedFile.setDefaultLogContainerSize(defaultLogContainerSize);
+
+    /* the compression thread waits for one whole log container, so the stream must be allowed to
+     * buffer at least that much; otherwise the encoding thread (stream full) and the compression
+     * thread (container incomplete) wait for each other. Never shrink below the constructor default. */
+    if (defaultLogContainerSize > 0x20000)
+        m_uncompressedFile.setBufferSize(defaultLogContainerSize);
 }
 
 ObjectHeaderBase * File::createObject(ObjectType type) {
